@@ -184,6 +184,10 @@ def catalogue():
     add('outer(utpm,ndarray)', [U((2,)), N((3,))], lambda algopy, x, y: algopy.outer(x, y), group='linalg', npfn=np.outer)
     add('outer(2,)x(3,)', [U((2,)), U((3,))], lambda algopy, x, y: algopy.outer(x, y), group='linalg', npfn=np.outer)
     add('dot(ndarray mat,vec)', [N((2, 3)), U((3,))], lambda algopy, x, y: algopy.dot(x, y), group='linalg', npfn=np.dot)
+    add('dot(ndarray vec,mat)', [N((2,)), U((2, 3))], lambda algopy, a, b: algopy.dot(a, b), group='dot', npfn=np.dot)
+    add('dot(mat,ndarray vec)', [U((3, 2)), N((2,))], lambda algopy, a, b: algopy.dot(a, b), group='dot', npfn=np.dot)
+    add('dot(ndarray rank3,mat)', [N((2, 2, 2)), U((2, 3))], lambda algopy, a, b: algopy.dot(a, b), group='dot', npfn=np.dot)
+    add('dot(mat,ndarray rank3)', [U((3, 2)), N((2, 2, 2))], lambda algopy, a, b: algopy.dot(a, b), group='dot', npfn=np.dot)
     add('dot(vec,ndarray mat)', [U((2,)), N((2, 3))], lambda algopy, x, y: algopy.dot(x, y), group='linalg', npfn=np.dot)
     add('dot(vec,mat)', [U((2,)), U((2, 3))], lambda algopy, x, y: algopy.dot(x, y), group='linalg', npfn=np.dot)
     # broadcasting against an operand of higher rank
@@ -223,6 +227,19 @@ def catalogue():
     add('abs() at 0', [U((2,), dom='zero')], lambda algopy, x: abs(x), group='kink')
     add('absolute at 0', [U((2,), dom='zero')], lambda algopy, x: algopy.absolute(x), group='kink')
     add('sign at 0', [U((2,), dom='zero')], lambda algopy, x: algopy.sign(x), group='kink')
+    # methods and classmethods that are thin wrappers (they must copy / allocate like the operators they wrap)
+    add('conjugate (real data)', [U((2, 2))], lambda algopy, x: algopy.conjugate(x), npfn=np.conjugate)
+    add('conj() (real data)', [U()], lambda algopy, x: x.conj(), npfn=np.conjugate)
+    add('conjugate (complex data)', [U(cplx=True)], lambda algopy, x: x.conjugate(), npfn=np.conjugate)
+    add('copy()', [U((2, 2))], lambda algopy, x: x.copy(), npfn=np.copy)
+    add('clone()', [U()], lambda algopy, x: x.clone(), npfn=np.copy)
+    add('fabs()', [U(dom='nonzero')], lambda algopy, x: x.fabs(), group='kink', npfn=np.fabs)
+    add('zeros_like()', [U((2, 2))], lambda algopy, x: x.zeros_like(), npfn=np.zeros_like)
+    add('ones_like()', [U((2, 2))], lambda algopy, x: x.ones_like(), npfn=np.ones_like)
+    for nm, f in (('add', np.add), ('sub', np.subtract), ('mul', np.multiply), ('multiply', np.multiply)):
+        add('UTPM.%s(x, y)' % nm, [U(), U()], (lambda nm: lambda algopy, x, y: getattr(algopy.UTPM, nm)(x, y))(nm), group='arith', npfn=f)
+    add('UTPM.div(x, y)', [U(), U(dom='nonzero')], lambda algopy, x, y: algopy.UTPM.div(x, y), group='arith', npfn=np.divide)
+    add('det', [U((2, 2))], lambda algopy, x: algopy.det(x), group='linalg', npfn=np.linalg.det, tags=['lu'])
     add('inv', [U((2, 2))], lambda algopy, x: algopy.inv(x), group='linalg', npfn=np.linalg.inv)
     add('solve', [U((2, 2)), U((2, 1))], lambda algopy, a, b: algopy.solve(a, b), group='linalg', npfn=np.linalg.solve)
     add('solve(ndarray,utpm)', [N((2, 2)), U((2, 1))], lambda algopy, a, b: algopy.solve(a, b), group='linalg', npfn=np.linalg.solve)
